@@ -100,19 +100,80 @@ class Drbg:
         return uuid.UUID(bytes=self.bytes(16))
 
 
-class Entropy:
-    """Logging entropy source. mode 'counter': never repeats; 'script': pops chosen values."""
+_FAMILIES: t.Dict[t.Tuple[bytes, int], t.List[bytes]] = {}
 
-    def __init__(self, tag: bytes = b"E") -> None:
+
+def collision_family(tag: bytes, n: int) -> t.List[bytes]:
+    """pairwise DISTINCT n-octet blocks that agree under the cheap digests a memo or a truncation might key on: equal Adler-32 / Fletcher /
+    octet sum, equal CRC-32, equal multiset of octets (any order-insensitive digest, xor-folds), equal first / last n-1 and 4 octets"""
+    import zlib
+
+    key = (tag, n)
+    if key in _FAMILIES:
+        return _FAMILIES[key]
+
+    def blk(i: int) -> bytes:
+        v, j = b"", 0
+        while len(v) < n:
+            v += hashlib.sha256(b"family" + tag + struct.pack(">IQI", n, i, j)).digest()
+            j += 1
+        return v[:n]
+
+    b0 = bytearray(blk(0))
+    fam = [bytes(b0)]
+    if n >= 3:
+        # +1, -2, +1 on three neighbouring octets: the octet sum and the position-weighted sum (hence Adler-32, Fletcher) stay the same
+        for i in range(n - 2):
+            if b0[i] < 255 and b0[i + 1] >= 2 and b0[i + 2] < 255:
+                a = bytearray(b0)
+                a[i] += 1
+                a[i + 1] -= 2
+                a[i + 2] += 1
+                assert zlib.adler32(a) == zlib.adler32(b0)
+                fam.append(bytes(a))
+                break
+    if n >= 5:
+        seen: t.Dict[int, bytes] = {}
+        for i in range(1, 1 << 22):
+            c = blk(i)
+            h = zlib.crc32(c)
+            if h in seen:
+                fam += [seen[h], c]
+                break
+            seen[h] = c
+    if n >= 2:
+        fam += [bytes(reversed(b0)), bytes(b0[1:] + b0[:1])]
+        fam += [bytes(b0[:-1]) + bytes([b0[-1] ^ 1]), bytes([b0[0] ^ 1]) + bytes(b0[1:])]
+    if n >= 8:
+        fam += [bytes(b0[:4]) + blk(1 << 23)[4:], blk(1 << 24)[:-4] + bytes(b0[-4:])]
+    out: t.List[bytes] = []
+    for x in fam:
+        if x not in out and len(x) == n:
+            out.append(x)
+    _FAMILIES[key] = out
+    return out
+
+
+class Entropy:
+    """Logging entropy source. mode 'counter': never repeats; 'script': pops chosen values; collide: never repeats either, but the first
+    blocks of every length come from collision_family()"""
+
+    def __init__(self, tag: bytes = b"E", collide: bool = False) -> None:
         self.log: t.List[t.Tuple[str, bytes]] = []
         self.n = 0
         self.tag = tag
         self.script: t.List[bytes] = []
+        self.collide = collide
+        self._drawn: t.Dict[int, int] = {}
 
     def _next(self, n: int, who: str) -> bytes:
         if self.script:
             v = self.script.pop(0)
             assert len(v) == n, (who, len(v), n)
+        elif self.collide and n and self._drawn.get(n, 0) < len(collision_family(self.tag, n)):
+            k = self._drawn.get(n, 0)
+            self._drawn[n] = k + 1
+            v = collision_family(self.tag, n)[k]
         else:
             self.n += 1
             v = b""
